@@ -935,6 +935,80 @@ fn api_state_family(rep: &mut Report) {
             }
         }
     }
+    // (e) inline tables that were marked dotted (`set_dotted(true)`: printed as `k.a = 1` inside a parent) and are then
+    // converted and placed where only a `[header]` / `[[header]]` can spell them
+    for dotted in [false, true] {
+        for pairs in [vec![("a", 1i64)], vec![("cpu", 1), ("mem", 2)]] {
+            let mk = || {
+                let mut t = InlineTable::new();
+                for (k, v) in &pairs {
+                    t.insert(*k, Value::from(*v));
+                }
+                t.set_dotted(dotted);
+                t
+            };
+            let want_t = || T::Tab(pairs.iter().map(|(k, v)| (k.to_string(), T::Leaf(Leaf::I(*v)))).collect());
+            let want_i = || T::Inl(pairs.iter().map(|(k, v)| (k.to_string(), T::Leaf(Leaf::I(*v)))).collect());
+            for place in 0..7usize {
+                let mut doc = DocumentMut::new();
+                doc["name"] = toml_edit::value("x");
+                let (pname, want): (&str, T) = match place {
+                    0 => {
+                        let mut a = Array::new();
+                        a.push(Value::InlineTable(mk()));
+                        a.push(Value::InlineTable(mk()));
+                        doc.insert("l", Item::Value(Value::Array(a)));
+                        ("elements of an array value", T::Arr(vec![want_i(), want_i()]))
+                    }
+                    1 => {
+                        let mut a = Array::new();
+                        a.push(Value::InlineTable(mk()));
+                        a.push(Value::InlineTable(mk()));
+                        let Ok(aot) = Item::Value(Value::Array(a)).into_array_of_tables() else { continue };
+                        doc.insert("l", Item::ArrayOfTables(aot));
+                        ("Item::into_array_of_tables", T::Aot(vec![pairs.iter().map(|(k, v)| (k.to_string(), T::Leaf(Leaf::I(*v)))).collect(), pairs.iter().map(|(k, v)| (k.to_string(), T::Leaf(Leaf::I(*v)))).collect()]))
+                    }
+                    2 => {
+                        let Ok(t) = Item::Value(Value::InlineTable(mk())).into_table() else { continue };
+                        let mut aot = toml_edit::ArrayOfTables::new();
+                        aot.push(t);
+                        doc.insert("l", Item::ArrayOfTables(aot));
+                        ("Item::into_table, pushed into an array of tables", T::Aot(vec![pairs.iter().map(|(k, v)| (k.to_string(), T::Leaf(Leaf::I(*v)))).collect()]))
+                    }
+                    3 => {
+                        let Ok(t) = Item::Value(Value::InlineTable(mk())).into_table() else { continue };
+                        doc.insert("l", Item::Table(t));
+                        ("Item::into_table, inserted as a table", want_t())
+                    }
+                    4 => {
+                        // (index assignment of a table-valued item goes through the same conversion helpers)
+                        doc["l"] = Item::Table(mk().into_table());
+                        ("InlineTable::into_table, assigned by index", want_t())
+                    }
+                    5 => {
+                        let mut sub = Table::new();
+                        sub.insert("in", Item::Value(Value::InlineTable(mk())));
+                        doc.insert("l", Item::Table(sub));
+                        ("value of a sub-table", T::Tab(vec![("in".to_string(), want_i())]))
+                    }
+                    _ => {
+                        let t = mk().into_table();
+                        let mut outer = Table::new();
+                        outer.insert("k", toml_edit::value(1));
+                        outer.insert("in", Item::Table(t));
+                        doc.insert("l", Item::Table(outer));
+                        ("InlineTable::into_table below a table", T::Tab(vec![("k".to_string(), T::Leaf(Leaf::I(1))), ("in".to_string(), want_t())]))
+                    }
+                };
+                let want_doc = T::Tab(vec![("name".into(), T::Leaf(Leaf::S("x".into()))), ("l".into(), want)]);
+                judge(&mut acc, format!("inline table {:?} (set_dotted: {}) as {}", pairs, dotted, pname), &doc, want_doc);
+            }
+            // as the ROOT of a document
+            let t = mk().into_table();
+            let doc = DocumentMut::from(t);
+            judge(&mut acc, format!("inline table {:?} (set_dotted: {}) converted with into_table and made the document root", pairs, dotted), &doc, want_t());
+        }
+    }
     // (c) wide documents: tables created through the API carry no position of their own and are printed relative to
     // their neighbours; with more than 20 of them any instability in that ordering shows
     for n in [0usize, 1, 2, 3, 19, 20, 21, 22, 23, 33, 48] {
